@@ -96,6 +96,7 @@ pub fn hash_bytes(s: &[u8]) -> u64 {
 
 thread_local! {
     static LAST_PANIC: RefCell<String> = RefCell::new(String::new());
+    static GUARD_DEPTH: std::cell::Cell<usize> = std::cell::Cell::new(0);
 }
 
 pub fn install_panic_hook() {
@@ -108,13 +109,18 @@ pub fn install_panic_hook() {
             "<non-string panic>".to_string()
         };
         let loc = info.location().map(|l| format!("{}:{}", l.file(), l.line())).unwrap_or_default();
+        // A panic outside every guard is a harness bug: make it visible.
+        if GUARD_DEPTH.with(|d| d.get()) == 0 { eprintln!("VMON-UNGUARDED-PANIC {} @ {}", msg, loc); }
         LAST_PANIC.with(|p| *p.borrow_mut() = format!("{} @ {}", msg, loc));
     }));
 }
 
 // Runs `f`, turning a panic into `Err(message @ location)`.
 pub fn guard<T>(f: impl FnOnce() -> T) -> Result<T, String> {
-    match panic::catch_unwind(AssertUnwindSafe(f)) {
+    GUARD_DEPTH.with(|d| d.set(d.get() + 1));
+    let r = panic::catch_unwind(AssertUnwindSafe(f));
+    GUARD_DEPTH.with(|d| d.set(d.get() - 1));
+    match r {
         Ok(v) => Ok(v),
         Err(_) => Err(LAST_PANIC.with(|p| p.borrow().clone())),
     }
@@ -148,6 +154,7 @@ pub struct Ctx {
     pub only_case: Option<u64>,
     pub scale: usize,
     pub tmpdir: String,
+    pub dir: String,
     pub evals: u64,
     pub checks: u64,
     pub digests: HashSet<u64>,
